@@ -218,9 +218,11 @@ func H(name string, vals ...string) *conformancev1.Header {
 	return &conformancev1.Header{Name: name, Value: vals}
 }
 
-// HeaderLists: 0-2 headers with 1-2 values; includes a Content-Type (which
-// net/http would otherwise sniff), a repeated name (values must concatenate in
-// order) and a lower-case spelling.
+// HeaderLists: 0-3 headers with 1-2 values; includes a Content-Type (which
+// net/http would otherwise sniff) and names that occur in two entries of the
+// list - spelled identically or differing only in case, adjacent or with another
+// entry in between: all values of such a name must arrive, in list order.
+// (Indices 0-3 are referred to by the harness files: new lists go behind them.)
 func HeaderLists(level int) [][]*conformancev1.Header {
 	a := H("X-Raw-A", "a1")
 	b := H("X-Raw-B", "b1", "b 2; q=x")
@@ -230,15 +232,22 @@ func HeaderLists(level int) [][]*conformancev1.Header {
 		nil,
 		{b},
 		{ct, a},
-		{a, a2},
+		{a, a2}, // same name in two entries, different case
+		{H("X-Raw-R", "r1", "r2"), H("X-Raw-B", "b1"), H("X-Raw-R", "r3")}, // same name, same spelling, another entry in between
 	}
 	if level >= 1 {
-		out = append(out, [][]*conformancev1.Header{{a}, {ct}, {a, b}, {b, a}}...)
+		out = append(out, [][]*conformancev1.Header{{a}, {ct}, {a, b}, {b, a},
+			{H("x-raw-r", "r1"), ct, H("X-RAW-R", "r2", "r3")}, // case variants around another entry
+			{a, H("X-Raw-A", "a1")},                            // the same entry twice: the value must arrive twice
+		}...)
 	}
 	return out
 }
 
-// TrailerLists: 0-2 trailers; X-Raw-A also occurs as a header name.
+// TrailerLists: 0-3 trailers; X-Raw-A also occurs as a header name; names that
+// occur in two entries of the list (identical spelling with another entry in
+// between; spellings that differ only in case): all their values must arrive,
+// in list order.  (Indices 0-2 are referred to by the harness files.)
 func TrailerLists(level int) [][]*conformancev1.Header {
 	t := H("X-Raw-T", "t1")
 	u := H("X-Raw-U", "u1", "u2")
@@ -248,11 +257,26 @@ func TrailerLists(level int) [][]*conformancev1.Header {
 		nil,
 		{t},
 		{u, a},
+		{H("X-Raw-R", "ra", "rb"), H("X-Raw-O", "rc"), H("X-Raw-R", "rd")}, // same name, same spelling, another entry in between
+		{H("x-raw-s", "1"), H("X-Raw-S", "2")},                             // same name, different case
 	}
 	if level >= 1 {
-		out = append(out, [][]*conformancev1.Header{{u}, {t, t2}, {t, u}}...)
+		out = append(out, [][]*conformancev1.Header{{u}, {t, t2}, {t, u},
+			{a, H("X-Raw-A", "tb", "tc")}, // repeated name that is also a header name of some header lists
+			{t, t},                        // the same entry twice
+			{H("X-RAW-S", "1", "2"), u, H("x-raw-s", "3")}, // case variants around another entry
+		}...)
 	}
 	return out
+}
+
+// Entries returns, per canonical name, the number of list entries that name it.
+func Entries(hs []*conformancev1.Header) map[string]int {
+	m := map[string]int{}
+	for _, h := range hs {
+		m[textproto.CanonicalMIMEHeaderKey(h.GetName())]++
+	}
+	return m
 }
 
 // Group returns canonical name -> values in listed order, and the names in
